@@ -79,9 +79,25 @@ pub fn digest_for_level(lvl: u32, base: u8, n: usize, salt: u8) -> Vec<u8> {
     d
 }
 
+thread_local! {
+    /// where in the value digest two values differ: 0 = first byte, 1 = last byte, 2 = byte 8 (or last)
+    static VAL_POS: std::cell::Cell<u8> = const { std::cell::Cell::new(0) };
+}
+
+pub fn set_val_pos(mode: u8) {
+    VAL_POS.with(|c| c.set(mode % 3));
+}
+
+/// Value digests of one case differ in exactly ONE byte whose position is chosen per case, so
+/// that a hash that ignores part of the digest (head, tail, beyond a word) is exposed.
 fn val_digest(v: u8, n: usize) -> Vec<u8> {
     let mut d = vec![0xa0u8; n];
-    d[0] = v;
+    let pos = match VAL_POS.with(|c| c.get()) {
+        0 => 0,
+        1 => n - 1,
+        _ => 8.min(n - 1),
+    };
+    d[pos] = v;
     d
 }
 
@@ -90,6 +106,7 @@ fn val_digest(v: u8, n: usize) -> Vec<u8> {
 // ------------------------------------------------------------------------------------------------
 
 pub fn tsmall(g: &mut Gen, u: usize, l: usize, nlev: u32, shard: usize, nshards: usize) {
+    set_val_pos(shard as u8);
     let n = 2usize;
     let base = 16u8;
     let total = (nlev as usize).pow(u as u32);
@@ -205,7 +222,8 @@ fn random_key(r: &mut Rng, kind: u64, i: usize) -> Vec<u8> {
 pub fn trand(g: &mut Gen, r: &mut Rng, cfg: &TRandCfg) {
     for case in 0..cfg.cases {
         let mut r = r.fork(case as u64);
-        let n = [2usize, 3, 8, 16][r.below(4) as usize];
+        set_val_pos(r.below(3) as u8);
+        let n = [2usize, 3, 8, 16, 20, 32][r.below(6) as usize];
         let base = [16u8, 2, 4, 255, 3][r.below(5) as usize];
         let cap = (2 * n as u32).min(6);
         let nkeys = 1 + r.below(cfg.max_keys as u64) as usize;
@@ -346,10 +364,11 @@ pub fn vsmall(g: &mut Gen, u: usize, nlev: u32, shard: usize, nshards: usize) {
 // ------------------------------------------------------------------------------------------------
 
 pub fn tmid(g: &mut Gen, r: &mut Rng, cases: usize) {
-    let n = 3usize;
     let base = 16u8;
     for case in 0..cases {
         let mut r = r.fork(case as u64);
+        set_val_pos(r.below(3) as u8);
+        let n = [3usize, 3, 16, 20][r.below(4) as usize];
         let nk = 4 + r.below(5) as usize;
         let nlev = 3 + r.below(3) as u32;
         let mut order: Vec<usize> = (0..nk).collect();
@@ -389,7 +408,9 @@ pub fn tmid(g: &mut Gen, r: &mut Rng, cases: usize) {
 // ------------------------------------------------------------------------------------------------
 
 pub fn dsmall(g: &mut Gen, u: usize, nlev: u32, shard: usize, nshards: usize) {
-    let n = 2usize;
+    set_val_pos(shard as u8);
+    // digest width varies with the shard: 2, 12 (not a multiple of 8), 20, 32 (beyond one 16-byte word)
+    let n = [2usize, 12, 20, 32][(shard / 3) % 4];
     let base = 16u8;
     let total = (nlev as usize).pow(u as u32);
     let ntrees = 3usize.pow(u as u32);
@@ -433,7 +454,8 @@ pub fn dsmall(g: &mut Gen, u: usize, nlev: u32, shard: usize, nshards: usize) {
 pub fn drand(g: &mut Gen, r: &mut Rng, cases: usize, max_keys: usize) {
     for case in 0..cases {
         let mut r = r.fork(case as u64);
-        let n = [2usize, 3, 16][r.below(3) as usize];
+        set_val_pos(r.below(3) as u8);
+        let n = [2usize, 3, 16, 12, 32][r.below(5) as usize];
         let base = [16u8, 2, 4][r.below(3) as usize];
         let cap = (2 * n as u32).min(5);
         let nk = 2 + r.below(max_keys as u64 - 1) as usize;
@@ -490,6 +512,22 @@ pub fn drand(g: &mut Gen, r: &mut Rng, cases: usize, max_keys: usize) {
         g.shapes.insert(fnv(&out) ^ case as u64);
         if case < 2 {
             g.sample(format!("drand case {case}: n={n} base={base} keys={nk} rel={rel} -> {out}"));
+        }
+        // a replica that diverges by local writes AFTER a sync point: clone the hashed tree (cached
+        // digests and all), overwrite / add a few keys, hash, diff both ways
+        if r.chance(1, 2) {
+            g.op("clone 2 0".into());
+            let edits = 1 + r.below(3);
+            for _ in 0..edits {
+                let i = r.below(nk as u64) as usize;
+                let v = 2 + r.below(2) as u8;
+                g.op(format!("ups 2 {} {} {}", xtok(&keys[i]), xtok(&kds[i]), xtok(&val_digest(v, n))));
+            }
+            g.op("hash 2".into());
+            let out2 = g.op("diff2 0 2".into());
+            g.cases += 1;
+            g.note("diverged-clone");
+            g.shapes.insert(fnv(&out2) ^ (case as u64) << 8);
         }
     }
 }
